@@ -60,8 +60,8 @@ Definition isempty (m : dfa) : res bool :=
   bind (can_accept m (d_init m)) (fun b => Ok (negb b)).
 
 (* ---- minimum_word_length: BFS by layers ---- *)
-Definition fresh (visited : list nat) (l : list nat) : list nat :=
-  fold_right (fun y acc => if memb y visited || memb y acc then acc else y :: acc) [] l.
+(* states not seen before, each once (Closure.newof) *)
+Definition fresh (visited : list nat) (l : list nat) : list nat := newof nat Nat.eqb visited l.
 
 Fixpoint min_len_go (m : dfa) (fuel : nat) (layer visited : list nat) (d : nat) : res nat :=
   match fuel with
